@@ -1,7 +1,7 @@
 """Demo for C11: recursive graph iteration (forwards / backwards, through GRAPH and GRAPHS
 attributes) stays well defined while graphs are edited.
 
-Run: cd /tmp/wt_c11tr && PYTHONPATH=/tmp/wt_c11tr/src /venv/bin/python /tmp/seed_out/C11_tr/demo.py
+Run: PYTHONPATH=<tree>/src python demo.py
 """
 
 from __future__ import annotations
